@@ -218,6 +218,75 @@ func cmdCheck(args []string) {
 			rep.Role = "tagged+callee-contract-used"
 		}
 	}
+	// 2. invariant providers. A property over all histories follows by induction only if every operation of the same
+	// container re-establishes the representation invariant that the tagged functions require — whichever property its
+	// own postconditions are tagged with. So every other contract function of a package that has a tagged function is
+	// verified too, and contributes: its safety, frame, loop, lemma and call-site obligations, its postconditions whose
+	// outermost predicate is one the tagged functions require (Inv, ItInv, ...), and clauses tagged with this property.
+	invPreds := map[string]bool{}
+	rootPkgs := map[string]bool{}
+	for k, r := range role {
+		if !strings.HasPrefix(r, "tagged") {
+			continue
+		}
+		rootPkgs[pkgOfKey(k)] = true
+		if sp := e.specFor(e.funcs[k]); sp != nil {
+			for _, rq := range sp.Requires {
+				for _, n := range topPredNames(rq.E) {
+					invPreds[n] = true
+				}
+			}
+		}
+	}
+	isInvPost := func(o *Obligation) bool {
+		for n := range invPreds {
+			if strings.HasPrefix(o.Text, n+"(") {
+				return true
+			}
+		}
+		return false
+	}
+	if os.Getenv("GOVC_NO_PROVIDERS") == "" {
+		for _, k := range keys {
+			if _, seen := role[k]; seen || !rootPkgs[pkgOfKey(k)] {
+				continue
+			}
+			spec := e.specFor(e.funcs[k])
+			if spec == nil || spec.Inline || spec.Trusted {
+				continue
+			}
+			role[k] = "invariant-provider"
+			ctx, x, err := e.VerifyFunction(e.funcs[k])
+			rep := &funcReport{Name: k, Level: "U", Role: role[k]}
+			reports = append(reports, rep)
+			repByName[k] = rep
+			if err != nil {
+				// a provider that cannot be verified is an unchecked assumption of this property's induction (it is reported
+				// as a violation under the properties its own clauses are tagged with)
+				rep.Level = "unbound"
+				rep.Notes = append(rep.Notes, err.Error())
+				notes["invariant provider not verified (outside the subset or contract no longer binds): "+k] = true
+				continue
+			}
+			for _, o := range ctx.obls {
+				if o.Kind == "post" && !isInvPost(o) && !(len(o.Props) > 0 && hasProp(o.Props, *prop)) {
+					continue
+				}
+				all = append(all, o)
+			}
+			for n := range x.externals {
+				assumed[n] = true
+			}
+			for _, n := range x.notes {
+				notes[n] = true
+			}
+			for callee := range x.usedSpecs {
+				if cs := e.specFor(e.funcs[callee]); cs != nil && cs.Trusted {
+					trusted[callee] = true
+				}
+			}
+		}
+	}
 	SolveAll(all, SolveOpts{TimeoutMs: timeout, Dir: tmp, Seed: seed}, runtime.NumCPU())
 
 	kf := readKnownFindings(filepath.Join(vd, "known_findings.txt"))
@@ -451,3 +520,41 @@ func trimModel(m string) string {
 
 // tryReplay: concrete replay of a model on the real code (implemented in replay.go).
 var tryReplay = func(e *Engine, o *Obligation, model string, b *strings.Builder) bool { return false }
+
+// pkgOfKey: "pkg.Recv.Func" -> "pkg"
+func pkgOfKey(k string) string {
+	if i := strings.Index(k, "."); i >= 0 {
+		return k[:i]
+	}
+	return k
+}
+
+// topPredNames: names of the predicate applications that are top-level conjuncts of a requires clause
+func topPredNames(e Expr) []string {
+	switch x := e.(type) {
+	case *EBin:
+		if x.Op == "&&" {
+			return append(topPredNames(x.L), topPredNames(x.R)...)
+		}
+	case EBin:
+		if x.Op == "&&" {
+			return append(topPredNames(x.L), topPredNames(x.R)...)
+		}
+	case *ECall:
+		return predName(x.Fn)
+	case ECall:
+		return predName(x.Fn)
+	}
+	return nil
+}
+
+func predName(fn string) []string {
+	n := fn
+	if i := strings.LastIndex(n, "."); i >= 0 {
+		n = n[i+1:]
+	}
+	if len(n) > 0 && n[0] >= 'A' && n[0] <= 'Z' {
+		return []string{fn}
+	}
+	return nil
+}
